@@ -4,7 +4,7 @@ package uniprot
 
 // C20: Uniprot streaming delivers every entry once, in order, and terminates.
 //
-// verif:bound C20 documents given as event scripts of length 0..3 (quick) / 0..4 (thorough) over {entry, entry damaged inside, other start element, other token, syntax error, reader failing with io.ErrUnexpectedEOF (truncated compressed stream), bare '&' between elements}; channel capacities 0, 1, 100; two consumer shapes (entries first and errors afterwards - the documented usage - or both concurrently); schedules at synchronisation-point granularity: default, LIFO mirror and all deviating at <= 2 (quick) / 3 (thorough) of the first 24 choice points
+// verif:bound C20 documents given as event scripts of length 0..3 (quick) / 0..4 (thorough) over {entry, entry damaged inside, other start element, other token, syntax error, reader failing with io.ErrUnexpectedEOF (truncated compressed stream), bare '&' between elements}; channel capacities 0, 1, 100; two consumer shapes (entries first and errors afterwards - the documented usage - or both concurrently); schedules at synchronisation-point granularity: default, LIFO mirror and all deviating at <= 2 of the first 24 choice points
 // verif:bound C20 two-streams clause: two one- or two-event documents parsed one after the other in the same process
 // verif:assume C20 encoding/xml.Decoder is a stub driven by the event script: Token returns the scripted tokens, after the first syntax error every later Token/DecodeElement returns that error, end of script is io.EOF; DecodeElement delivers an opaque entry stamped with its ordinal. Natively the same script is laid out as a real Uniprot XML document and read by the real decoder (replay)
 // verif:bound C20 outside the claim: the content of an entry (accessions, names, sequence text: reflection-driven unmarshalling), gzip, Read's file handling, truncation at every byte offset (only element-level damage), the race detector
@@ -32,7 +32,7 @@ func c20Expected(script string) (entries int, damaged bool) {
 }
 
 func Harness_C20_Streaming() {
-	vSchedules(vTier(2, 3))
+	vSchedules(2)
 	script := c20Script()
 	capacity := []int{0, 1, 100}[vChoice(3)]
 	concurrent := vChoice(2) == 1
